@@ -69,10 +69,17 @@ def run(ctx):
     ctx.rule = RULE
     rng = ctx.rng
     flac_jobs = []
+    import containers
     for fmt in F.TAGGABLE:
         samples = fmt.samples[:1] if ctx.quick else fmt.samples[:3]
-        for sname in samples:
-            data = F.sample_bytes(ctx.repo, sname)
+        todo = [(sname, F.sample_bytes(ctx.repo, sname)) for sname in samples]
+        # synthesised layouts: MP4 atom layouts (64-bit headers, split media, fragments), a few tails for ID3-framed files
+        synth = containers.synth_samples(ctx, fmt)
+        if fmt.kind == "MP4":
+            todo += synth if not ctx.quick else synth[-2:] + synth[:1]
+        elif synth:
+            todo += synth[:2] if ctx.quick else synth[:6]
+        for sname, data in todo:
             if walkers.walk(fmt.kind, data).errors:
                 continue
             for op in ("load", "save-grow", "save-shrink", "delete", "module-delete"):
